@@ -114,7 +114,19 @@ class CoroProtoFuture:
         return None
 
 
-END_CLASSES = {"future": FutureLike, "future_falsy": FalsyFuture, "future_len0": EmptySizedFuture,
+_LOOP: List[Any] = []
+
+
+def AsyncioFuture():
+    """A pending asyncio.Future (what code awaiting under asyncio is ultimately suspended on: its C iterator ends the chain)."""
+    import asyncio
+
+    if not _LOOP:
+        _LOOP.append(asyncio.new_event_loop())
+    return _LOOP[0].create_future()
+
+
+END_CLASSES = {"asyncio_future": AsyncioFuture, "future": FutureLike, "future_falsy": FalsyFuture, "future_len0": EmptySizedFuture,
                "gen_proto": GenProtoFuture, "duck_gen": DuckGenFuture, "coro_proto": CoroProtoFuture}
 
 
